@@ -1410,7 +1410,14 @@ class Model(Object):
     def __exit__(self, type, value, traceback) -> None:
         """Pop the top context manager and trigger the undo functions."""
         context = self._contexts.pop()
-        context.reset()
+        # The undo functions must not be recorded by an enclosing context, so
+        # the remaining contexts are hidden while the undo functions run.
+        contexts = self._contexts
+        self._contexts = []
+        try:
+            context.reset()
+        finally:
+            self._contexts = contexts
 
     def merge(
         self,
